@@ -54,10 +54,9 @@ Proof. exact popcount_two_iff. Qed.
 Theorem C16_errors :
   ERR_NOT_ENOUGH <> ERR_TOO_MANY /\ ERR_NOT_ENOUGH <> ERR_INVALID_BINARY /\
   ERR_TOO_MANY <> ERR_INVALID_BINARY /\
-  ERR_NOT_ENOUGH = 7 /\ ERR_TOO_MANY = 8 /\ ERR_INVALID_BINARY = 3 /\
-  nth 7 HandError_NAMES EmptyString = "NotEnoughCards"%string /\
-  nth 8 HandError_NAMES EmptyString = "TooManyCards"%string /\
-  nth 3 HandError_NAMES EmptyString = "InvalidBinaryFormat"%string.
+  nth (N.to_nat ERR_NOT_ENOUGH) HandError_NAMES EmptyString = "NotEnoughCards"%string /\
+  nth (N.to_nat ERR_TOO_MANY) HandError_NAMES EmptyString = "TooManyCards"%string /\
+  nth (N.to_nat ERR_INVALID_BINARY) HandError_NAMES EmptyString = "InvalidBinaryFormat"%string.
 Proof. exact errors_distinct. Qed.
 
 (* non-vacuity: ace of spades + deuce of clubs; deuce of clubs + overflow bit 60; two overflow bits;
